@@ -135,6 +135,8 @@ class Slicer:
                 return ("const", o["val"], o["ty"])
             if "promoted" in o:
                 return ("promoted", o.get("promoted_of"), o["promoted"])
+            if "unevaluated" in o:
+                return ("uconst", o["unevaluated"], tuple(o.get("uv_args") or ()), o["ty"])
             return ("constother", o.get("repr"), o["ty"])
         return ("opaque", "operand-" + k)
 
@@ -366,6 +368,8 @@ def show(e, depth=0, maxdepth=8):
         return "promoted[%s]" % e[2]
     if k == "constother":
         return "const(%s)" % e[1]
+    if k == "uconst":
+        return "const(%s%s)" % (e[1], ("::<%s>" % ", ".join(e[2])) if e[2] else "")
     if k == "call":
         return "%s(%s)@bb%d" % (e[2].id if e[2] else "<indirect>", ", ".join(r(a) for a in e[3]), e[1])
     if k == "field":
@@ -606,10 +610,26 @@ class Interp:
             out = ("index", s(e[1]), s(e[2]))
         elif k == "promoted":
             out = self.promoted(e)
+        elif k == "uconst":
+            out = self.uconst(e)
         else:
             out = e
         memo[key] = out
         return out
+
+    def uconst(self, e, depth=0):
+        """A reference to a constant item: replaced by the value its (CTFE) body builds — a free / inherent const,
+        or `<T as Trait>::NAME` once T is concrete (resolved through the impl that provides it)."""
+        path = e[1]
+        if path not in self.prog.consts and e[2]:
+            path = self.prog.trait_consts.get((e[1], e[2][0]))
+        b = self.prog.consts.get(path) if path else None
+        if b is None or depth > 4:
+            return e
+        key = ("const", path)
+        if key not in self.slicers:
+            self.slicers[key] = Slicer(b)
+        return self.simplify(self.slicers[key].local(0))
 
     def promoted(self, e):
         lst = self.prog.promoted.get(e[1])
@@ -713,6 +733,21 @@ def map_children(e, f, payload=None):
     return e
 
 
+def subst_types(e, tmap, memo=None):
+    """Instantiate the type parameters mentioned by constant references (`<F as Trait>::NAME` with F := concrete)."""
+    if memo is None:
+        memo = {}
+    key = id(e)
+    if key in memo:
+        return memo[key]
+    if e[0] == "uconst":
+        out = ("uconst", e[1], tuple(tmap.get(a, a) for a in e[2]), e[3])
+    else:
+        out = map_children(e, lambda x: subst_types(x, tmap, memo), None)
+    memo[key] = out
+    return out
+
+
 def _inlinable(prog, c, keep=()):
     if c is None or not c.local or c.kind not in ("Item",):
         return None
@@ -749,7 +784,11 @@ def _inline(self, e, memo=None, depth=0, stack=()):
             ret = self.ret_expr(c.path)
             if ret is not None:
                 mapping = {i + 1: a for i, a in enumerate(out[3])}
-                body = self.simplify(self.subst(ret, mapping))
+                body = self.subst(ret, mapping)
+                gens = b.j.get("generics") or []
+                if gens and c.args and len(gens) == len(c.args):
+                    body = subst_types(body, dict(zip(gens, c.args)))
+                body = self.simplify(body)
                 out = _inline(self, body, None, depth + 1, stack + (c.path,))
     memo[key] = out
     return out
